@@ -25,4 +25,6 @@ use std::num::ParseIntError;
 //@verify visitor.new_logic_manager
 //@verify visitor.cond_or
 //@verify visitor.cond_and
+//@verify visitor.select
+//@verify visitor.index
 //@include prelude/tail_std.rs
